@@ -69,7 +69,7 @@ func momentumInds() []Ind {
 		{
 			Name: "IchimokuCloud", Inputs: []string{High, Low, Close}, Params: []Param{per("conversion", 9), per("base", 26), per("leading", 52), per("lagging", 26)},
 			Outs: []string{"conversion", "base", "spanA", "spanB", "lagging"},
-			Fix: func(c *Config) { sort2(&c.P[0], &c.P[1]); sort2(&c.P[1], &c.P[2]); sort2(&c.P[0], &c.P[1]) },
+			Fix:  func(c *Config) { sort2(&c.P[0], &c.P[1]); sort2(&c.P[1], &c.P[2]); sort2(&c.P[0], &c.P[1]) },
 			Build: func(c Config) (func([]C) []C, int) {
 				a := momentum.NewIchimokuCloud[float64]()
 				a.ConversionMax.Period, a.ConversionMin.Period = c.P[0], c.P[0]
@@ -106,7 +106,7 @@ func momentumInds() []Ind {
 				a.ShortEma.Period, a.LongEma.Period, a.SignalEma.Period = c.P[0], c.P[1], c.P[2]
 				return func(in []C) []C { return o3(a.Compute(in[0])) }, a.IdlePeriod()
 			},
-			Doc: "PPO = ((EMA(short) - EMA(long)) / EMA(long)) * 100; Signal = EMA(9, PPO); Histogram = PPO - Signal",
+			Doc:      "PPO = ((EMA(short) - EMA(long)) / EMA(long)) * 100; Signal = EMA(9, PPO); Histogram = PPO - Signal",
 			Ref:      func(c Config, in In) []ref.S { return ppoRef(in[X], c.P[0], c.P[1], c.P[2]) },
 			PriceDeg: []int{0, 0, 0}, VolDeg: []int{0, 0, 0}, Recursive: true,
 		},
@@ -118,7 +118,7 @@ func momentumInds() []Ind {
 				a.ShortEma.Period, a.LongEma.Period, a.SignalEma.Period = c.P[0], c.P[1], c.P[2]
 				return func(in []C) []C { return o3(a.Compute(in[0])) }, a.IdlePeriod()
 			},
-			Doc: "PVO = ((EMA(short, volumes) - EMA(long, volumes)) / EMA(long, volumes)) * 100; Signal = EMA(9, PVO); Histogram = PVO - Signal",
+			Doc:      "PVO = ((EMA(short, volumes) - EMA(long, volumes)) / EMA(long, volumes)) * 100; Signal = EMA(9, PVO); Histogram = PVO - Signal",
 			Ref:      func(c Config, in In) []ref.S { return ppoRef(in[Volume], c.P[0], c.P[1], c.P[2]) },
 			PriceDeg: []int{0, 0, 0}, VolDeg: []int{0, 0, 0}, Recursive: true,
 		},
